@@ -54,7 +54,13 @@ def run(ctx):
                     ok = True
         ctx.check(ok, 'C19-out', 'return value agrees with *tz in %s' % L['fname'], r['node'], why,
                   construct='retval:%s' % L['fname'], detail='%s with *tz = %s' % (rk[:60], out[1][:60]))
-    ctx.minimum('C19-out', 6)
+    for w in L['slot_writes']:
+        for arm in w['arms']:
+            ctx.check(arm['ok'], 'C19-out', 'outcome recorded for a name: %s' % arm['kind'], arm['node'],
+                      'a load that failed (null zone_) can be recorded and handed out as a real zone: the loader then returns true '
+                      'for a name that could not be resolved' if arm['kind'] == 'fresh' else arm['why'],
+                      construct='outcome:%s' % arm['kind'], detail=arm['kind'])
+    ctx.minimum('C19-out', 8)
 
     # ---- C19-null
     ks = [k for k in G.find('cctz::time_zone::time_zone') if len(k[1]) == 0]
@@ -215,9 +221,42 @@ def run(ctx):
                 ctx.check(nonnull and nonempty, 'C19-env', '$TZDIR overrides the default only when set and non-empty', x,
                           'the default directory is replaced without $TZDIR having been found set and non-empty',
                           construct='tzdir-override', detail='non-null (%s), non-empty (%s)' % (nonnull, nonempty))
+    # $TZ and $LOCALTIME override whenever they are set (an empty value is a value)
     u, f = ctx.fn('cctz::local_time_zone')
+    F = ctx.facts(f)
+    envvars = {}
+    for x in walk(f):
+        if x.get('kind') == 'BinaryOperator' and x.get('opcode') == '=' and peel(kids(x)[1]).get('kind') == 'CallExpr' and \
+                callee(peel(kids(x)[1])) and callee(peel(kids(x)[1]))[1].get('name') in ('getenv', 'secure_getenv'):
+            a = peel(call_args(peel(kids(x)[1]))[0])
+            envvars[F.keys.key(kids(x)[0])] = a.get('value', '').strip('"')
+    n_ov = 0
+    for x in walk(f):
+        if x.get('kind') == 'BinaryOperator' and x.get('opcode') == '=' and F.keys.key(kids(x)[1]) in envvars:
+            vk = F.keys.key(kids(x)[1])
+            n_ov += 1
+            fs = F.facts_at_ast(x) or frozenset()
+            about = [ft for ft in fs if vk in ft[1] or vk in ft[2]]
+            only_set = all(ft[0] == '!=' and set(ft[1:]) == set((vk, 'null')) for ft in about) and about
+            ctx.check(bool(only_set), 'C19-env', '$%s overrides whenever it is set' % envvars[vk], x,
+                      '$%s is ignored for some values although it is set (extra condition %s): an empty value must be used as given '
+                      '(and then fails over to UTC)' % (envvars[vk], [ft for ft in about if not (ft[0] == '!=' and 'null' in ft[1:])]),
+                      construct='env-override:%s' % envvars[vk], detail=str(sorted(about))[:80])
+    ctx.check(n_ov == 2, 'C19-env', '$TZ and $LOCALTIME each override the zone name once', f, 'found %d override assignments' % n_ov,
+              construct='env-override:count')
+    # leap-second ("right/") data is rejected
+    kl = G.one('cctz::TimeZoneInfo::Load', 'ZoneInfoSource')
+    ul, fl = G.defs[kl]
+    Fl = ctx.facts(fl)
+    gl = ctx.cfg(fl)
+    accl = [rn for rn in gl.returns if Fl.keys.key(kids(rn.ast)[0]) == 'n:1']
+    okl = bool(accl) and all(any(op == '==' and 'n:0' in (a, b) and (a.endswith('.leapcnt') or b.endswith('.leapcnt')) for (op, a, b) in Fl.facts_at(rn)) for rn in accl)
+    ctx.check(okl, 'C19-data', 'zone data with leap-second records is rejected', fl,
+              'Load can succeed without leapcnt == 0 having been established for the header whose data is decoded (e.g. only the '
+              'first header of a version-2 file is checked): leap-second files load as ordinary zones', construct='data:leapcnt')
     lits = set(y.get('value') for y in walk(f) if y.get('kind') == 'StringLiteral')
     for lit in ('":localtime"', '"localtime"', '"/etc/localtime"'):
         ctx.check(lit in lits, 'C19-env', 'local_time_zone uses %s' % lit, f,
                   'the documented default %s is not used by local_time_zone' % lit, construct='lit:%s' % lit)
-    ctx.minimum('C19-env', 7)
+    ctx.minimum('C19-env', 10)
+    ctx.minimum('C19-data', 1)
